@@ -537,6 +537,16 @@ func solveOne(g *Gen, o *Obligation, dir, tag string, timeoutS int) *Result {
 		case "unsat":
 			r.Status = "cover-fail"
 		default:
+			// Concrete probe: a cover only needs one witness; fixing the scalar inputs to zero
+			// turns the unfolded library definitions into constants.
+			if zp := zeroProbe(o); len(zp) > 0 {
+				zs, zsv, zso, zms := runSolvers(g.script(o, zp, nil), dir, tag+"_zero", timeoutS/2+1, []string{"z3-new"})
+				r.Ms += zms
+				if zs == "sat" {
+					r.Status, r.Solver, r.Raw = "cover-ok", zsv+"(zero-inputs)", zso
+					return r
+				}
+			}
 			// Reachability sanity check with the quantified facts dropped: unsat here is a
 			// definite vacuity; sat is accepted as "reachable" (the dropped facts are
 			// definitional axioms; the check is a sanity check, not part of any proof).
@@ -611,6 +621,18 @@ func solveOne(g *Gen, o *Obligation, dir, tag string, timeoutS int) *Result {
 
 // smallScope constrains input sizes to find a model quickly. Any model of the
 // constrained query is a model of the original: sound for refutation only.
+// zeroProbe fixes every bit-vector input to zero (a candidate witness for cover queries).
+func zeroProbe(o *Obligation) []string {
+	var out []string
+	for _, in := range o.Inputs {
+		var w int
+		if n, _ := fmt.Sscanf(in.Term.Sort, "(_ BitVec %d)", &w); n == 1 && w > 0 && w%4 == 0 {
+			out = append(out, fmt.Sprintf("(assert (= %s #x%s))", in.Term.S, strings.Repeat("0", w/4)))
+		}
+	}
+	return out
+}
+
 func smallScope(g *Gen, o *Obligation, bound int) []string {
 	var out []string
 	for _, in := range o.Inputs {
